@@ -478,6 +478,38 @@ STYLE_DOCS = [
 ]
 
 
+def _chains():
+  """chained referential styling of depth 2 and 3, every declaration order of the style elements: the colour comes from
+  the deepest style unless a style nearer to the reference specifies it"""
+  import itertools
+  out = []
+  for depth in (2, 3):
+    ids = ["c%d" % i for i in range(depth + 1)]          # c0 -> c1 -> ... -> c<depth>
+    for override in (None, 1):
+      elems = []
+      for i, sid in enumerate(ids):
+        attrs = 'xml:id="%s"' % sid
+        if i < depth:
+          attrs += ' style="%s"' % ids[i + 1]
+        if i == depth:
+          attrs += ' tts:color="red" tts:backgroundColor="blue"'
+        if override is not None and i == override:
+          attrs += ' tts:color="lime"'
+        elems.append("<style %s/>" % attrs)
+      perms = list(itertools.permutations(range(len(elems))))
+      if depth == 3:
+        perms = perms[::5]
+      for perm in perms:
+        name = "chain-depth%d-order%s%s" % (depth, "".join(map(str, perm)), "-override" if override is not None else "")
+        out.append((name, "<styling>%s</styling>" % "".join(elems[i] for i in perm), '<p style="c0">X</p>', "p",
+                    "lime" if override is not None else "red"))
+  return out
+
+
+STYLE_DOCS += _chains()
+LANGS = [("", "fr"), (' xml:lang=""', ""), (' xml:lang="en"', "en")]
+
+
 class StyleGraphHarness(Harness):
   name = "c04_styles"
   properties = ("C04", "C18")
@@ -486,7 +518,7 @@ class StyleGraphHarness(Harness):
   assumptions = ("concrete documents chosen by a selector (no numeric symbol)",)
   outside = ("style graphs other than the listed ones",)
   required_witnesses = ("checked",)
-  bounds = {"quick": "%d style graphs (inline, nested, referential, chained, diamond, missing id, initial), xml:space/lang inheritance" % len(STYLE_DOCS),
+  bounds = {"quick": "%d style graphs (inline, nested, referential, chained to depth 3 in every declaration order, diamond, missing id, initial) x xml:lang {inherited, empty, overridden}, xml:space inheritance" % len(STYLE_DOCS),
             "thorough": "same"}
   budget_s = {"quick": 60, "thorough": 120}
   validate_models = 1
@@ -496,10 +528,12 @@ class StyleGraphHarness(Harness):
 
   def body(self, ex, params):
     name, head, content, where, want = STYLE_DOCS[ex.choice("doc", len(STYLE_DOCS))]
+    lang_attr, want_lang = LANGS[ex.choice("lang", len(LANGS))]
+    content = content.replace("<p", "<p" + lang_attr, 1)
     xml = tt_doc('<div xml:space="preserve" xml:lang="fr">%s</div>' % content, head)
     with Quiet():
       doc, exc = call(ex, lambda: imsc_reader.to_model(et.ElementTree(et.fromstring(xml))))
-    det = {"doc": name}
+    det = {"doc": name, "lang": want_lang}
     if exc:
       ex.fail("C18:imsc-reader-raises", dict(det, site=exc[1], exc=type(exc[0]).__name__))
       return
@@ -516,8 +550,12 @@ class StyleGraphHarness(Harness):
     else:
       ex.prove(doc.get_initial_value(C) == wantc, "C04:style-precedence", det)
     p = [e for e in doc.get_body().dfs_iterator() if isinstance(e, model.P)][0]
-    ex.prove(p.get_space() is model.WhiteSpaceHandling.PRESERVE and p.get_lang() == "fr", "C04:space-lang-inherited", det)
     spans = [e for e in p if isinstance(e, model.Span)]
+    ex.prove(p.get_space() is model.WhiteSpaceHandling.PRESERVE and p.get_lang() == want_lang
+             and all(sp.get_lang() == want_lang for sp in spans), "C04:space-lang-inherited", det)
+    if name.startswith("chain-"):
+      ex.prove(p.get_style(styles.StyleProperties.BackgroundColor) == styles.NamedColors.blue.value, "C04:style-precedence",
+               dict(det, what="property specified only at the end of the chain"))
     ex.prove(len(spans) == 1 and isinstance(spans[0].first_child(), model.Text) and spans[0].first_child().get_text() == "X",
              "C04:anonymous-span", det)
 
